@@ -926,6 +926,7 @@ def gen_merge16(rng):
                               multiline=rng.random() < 0.4,
                               max_nodes=rng.choice([4, 8, 12]))
         docs.append(gen.document(root=root))
+    ctl_json = False
     if rng.random() < 0.12:
         # characters that reach a document only through escapes (NEL, DEL):
         # YAML would treat a raw U+0085 as a line break
@@ -936,6 +937,7 @@ def gen_merge16(rng):
             victim["i"].append([S("ctl"), node])
         else:
             victim["i"].append(node)
+        ctl_json = rng.random() < 0.6
     files = {}
     names = []
     for idx, doc in enumerate(docs):
@@ -958,16 +960,19 @@ def gen_merge16(rng):
         opts += ["-D", rng.choice(["auto", "yaml", "json"])]
     if rng.random() < 0.15:
         opts += ["-J", rng.choice(["0", "2"])]
-    if use_anchors:
+    if ctl_json:
+        # default policies, JSON out: covered by the independent merge model
+        opts = ["-D", "json"] + (["-J", "2"] if rng.random() < 0.3 else [])
+    if use_anchors and not ctl_json:
         opts += ["-a", rng.choice(["stop", "left", "right", "rename"])]
-    if rng.random() < 0.1:
+    if rng.random() < 0.1 and not ctl_json:
         opts += ["-E", rng.choice(["left", "right", "unique"])]
-    if root == "m" and rng.random() < 0.15:
+    if root == "m" and rng.random() < 0.15 and not ctl_json:
         maps = [sg for sg, n in gen_docs.positions(docs[0])
                 if n["t"] == "m" and sg]
         if maps:
             opts += ["-m", gen_docs.render_path(rng.choice(maps), "/")]
-    if rng.random() < 0.25:
+    if rng.random() < 0.25 and not ctl_json:
         lines = ["[defaults]"]
         for key, vals in (("arrays", ["all", "left", "right", "unique"]),
                           ("hashes", ["deep", "left", "right"]),
@@ -988,7 +993,7 @@ def gen_merge16(rng):
     scn = {"tool": "yaml-merge", "opts": opts, "names": names,
            "files": files, "outmode": outmode,
            "outname": W + rng.choice(["out.yaml", "out.json", "out.txt"])}
-    if rng.random() < 0.2:
+    if rng.random() < 0.2 and not ctl_json:
         # multi-document inputs merged document by document
         scn["opts"] = [o for i, o in enumerate(opts)
                        if o != "-M" and (i == 0 or opts[i - 1] != "-M")] \
@@ -1009,7 +1014,7 @@ def gen_merge16(rng):
             files[name] = "".join(parts)
             names.append(name)
         scn.update(files=files, names=names, multidoc=True)
-    elif rng.random() < 0.15 and "-M" not in opts:
+    elif rng.random() < 0.15 and "-M" not in opts and not ctl_json:
         # default condense_all: every document of every input is folded into
         # the first document of the first input, which is itself a stream
         parts = [files[names[0]] if files[names[0]].startswith("---")
